@@ -62,7 +62,8 @@ def gen_plain(rng, depth, big=True):
 
 NON_PLAIN = [(1, 2), (), {1, 2}, frozenset({1}), decimal.Decimal("1.5"), fractions.Fraction(1, 2), complex(1, 2),
              bytearray(b"x"), _uuid.UUID("5a1f2e0c-9d3b-1c7a-8f21-0123456789ab"), _uuid.UUID("5a1f2e0c-9d3b-3c7a-8f21-0123456789ab"),
-             _uuid.UUID("5a1f2e0c-9d3b-5c7a-8f21-0123456789ab"), _uuid.UUID(int=0), OddValue(), ..., OddValue, range(3),
+             _uuid.UUID("5a1f2e0c-9d3b-5c7a-8f21-0123456789ab"), _uuid.UUID(int=0), _uuid.UUID("5a1f2e0c-9d3b-4c7a-0f21-0123456789ab"),
+             _uuid.UUID("00000000-0000-4000-e000-000000000000"), OddValue(), ..., OddValue, range(3),
              memoryview(b"x"), _dt.time(1, 2), _dt.timedelta(1), {...: 5}, {...: ...}, {"a": 1, ...: "x"}]
 
 
